@@ -229,6 +229,24 @@ func (rs *RequestServer) packetWorker(ctx context.Context, pktChan chan orderedR
 		}
 
 		var rpkt responsePacket
+
+		// A request whose attribute block is shorter than its attribute flags declare is malformed:
+		// it is refused here, before any handler is invoked.
+		var attrErr error
+		switch pkt := pkt.requestPacket.(type) {
+		case *sshFxpOpenPacket:
+			_, attrErr = pkt.unmarshalFileStat(pkt.Flags)
+		case *sshFxpSetstatPacket:
+			_, attrErr = pkt.unmarshalFileStat(pkt.Flags)
+		case *sshFxpFsetstatPacket:
+			_, attrErr = pkt.unmarshalFileStat(pkt.Flags)
+		}
+		if attrErr != nil {
+			rs.pktMgr.readyPacket(
+				rs.pktMgr.newOrderedResponse(statusFromError(pkt.id(), attrErr), orderID))
+			continue
+		}
+
 		switch pkt := pkt.requestPacket.(type) {
 		case *sshFxInitPacket:
 			rpkt = &sshFxVersionPacket{Version: sftpProtocolVersion, Extensions: sftpExtensions}
